@@ -237,6 +237,7 @@ def check(tier, seed):
         if kind == "ok":
             _n, ws = H.worlds_for(schema, query, variables, with_boom=False)
             worlds = ws if tier == "thorough" else ws[:1] + rnd.sample(ws[1:], min(len(ws) - 1, 5))
+            worlds += [x for x in ws if x[0].startswith(("gen-error@", "shared-error@")) and x not in worlds]       # fixed members
         for wname, world in worlds:
             for dset in (DEFERRED if kind == "ok" else DEFERRED[:1]):
                 for n_instr, n_mw in ((1, 0), (3, 0), (1, 2), (2, 3)):
